@@ -128,7 +128,7 @@ def w_buf_ops(case):
             elif k == "read_word":
                 outs.append(b.read_word(o["n"]))
             elif k == "push_bytes":
-                b.push_bytes(list(o["bytes"]))
+                b.push_bytes(bytes(o["bytes"]))  # any bytes-like / iterable of ints; a list would tie the test to a list buffer
                 outs.append("ok")
             elif k == "seek":
                 b.bitaddr = o["addr"]
@@ -566,6 +566,11 @@ def run(prop, tier, replay=None):
     for s, a, b in zip(seqs, ib, mb):
         rep.count(json.dumps(s))
         rep.hist("decode_inputs", "buf_ops")
+        if a.get("exc") == "AttributeError":
+            # the private _Buffer API (push_word / read_word / push_bytes / buffer / bitaddr) was renamed or restructured:
+            # no property speaks about it; the byte-level tie then rests on the codec-level correspondence above
+            rep.hist("buffer_api", "not available under the modelled names: " + a.get("msg", "")[:80])
+            continue
         if a.get("ok") != b:
             rep.cov["disagreements_checked"] += 1
             rep.violation({"kind": "buffer-ops", "ops": s["ops"], "observed": a, "expected": b,
